@@ -12,7 +12,8 @@ DIMS = {
     "pad": ["one", "none", "many", "tabs", "unicode"],
     "indent": ["none", "spaces", "tab"],
     "blanks": [0, 1, 2, 3, 5, 40],
-    "between": ["nothing", "code_line", "attribute_line", "code_then_comment", "comment_line", "other_directive", "directive_after", "directive_trailing"],
+    "between": ["nothing", "code_line", "attribute_line", "code_then_comment", "comment_line", "other_directive", "directive_after", "directive_trailing",
+                "code_with_trailing_directive"],
     "nstmts": [1, 2, 3],
     "multiline": [False, True],
     # how the (last) subject statement is spelled: name, `!` and `(` on one line, or the name alone on the line the statement
@@ -28,7 +29,8 @@ def directive_text(d, rnd):
     if d in base:
         return base[d]
     if d == "near_extra":
-        return rnd.choice(["breadlog:ignore please", "breadlog:ignore, breadlog:no-kvp", "see breadlog:ignore",
+        return rnd.choice(["breadlog:ignore please", "breadlog:ignore, breadlog:no-kvp", "see breadlog:ignore", "// breadlog:ignore",
+                           "no longer needed: // breadlog:no-kvp", "/ breadlog:ignore", "* breadlog:ignore", "breadlog:ignore //", "/* breadlog:ignore",
                            "breadlog:no-kvp here", "breadlog:ignore.", "breadlog:ignore breadlog:ignore"])
     if d == "near_spelling":
         return rnd.choice(["breadlog: ignore", "breadlog-ignore", "breadlog:ignored", "breadlog:no_kvp", "breadlog:nokvp",
@@ -101,7 +103,10 @@ def build(fileseed, rows, eol):
         if not (file_start and ri == 0):
             stmt(False, "guard_before", row, "none", pre="    ")
             gf.newline()
-        if b not in ("directive_after", "directive_trailing"):
+        if b == "code_with_trailing_directive":
+            # the nearest non-blank line above is a code line that ends in the comment: the comment is on that line all the same
+            gf.raw(ind + rnd.choice(["let n = buf.len(); ", "buf.clear(); ", "} ", "x += 1;\t"]) + dtext + eol)
+        elif b not in ("directive_after", "directive_trailing"):
             gf.raw(ind + dtext + eol)
             if b == "code_line":
                 gf.raw(ind + rnd.choice(["let between = 1;", "let between = 1;", "}", "};", "loop {", ".await;", ")",
@@ -170,14 +175,77 @@ def judge_one(it, eff, structured, fo):
     return None
 
 
+RE_DIRECTIVE_WORD = None
+
+
+def twin_of(data):
+    """The same file, byte for byte the same length, with every directive word spoilt (ignore -> ignorf, no-kvp -> no-kvq)."""
+    import re
+    global RE_DIRECTIVE_WORD
+    if RE_DIRECTIVE_WORD is None:
+        RE_DIRECTIVE_WORD = re.compile(rb"(?i)(breadlog\s*:\s*)(ignore|no-kvp)")
+    return RE_DIRECTIVE_WORD.sub(lambda m: m.group(1) + m.group(2)[:-1] + (b"f" if m.group(2)[-1:] in b"eE" else b"q"), data)
+
+
 def work(job):
     built, fileseed, rows, structured, eol = job
     gf, meta = build(fileseed, rows, eol)
+    files = {"src/f.rs": gf.data()}
+    twin = None
+    if hash(fileseed) % 4 == 0:
+        # a second file with the same skeleton (every statement at the same byte offset) but without any genuine directive, processed
+        # before or after the first: nothing may carry over from one file to the next
+        twin = "src/a_twin.rs" if hash(fileseed) % 8 == 0 else "src/z_twin.rs"
+        files[twin] = twin_of(gf.data())
+    minis = []
+    if hash(fileseed) % 3 == 0:
+        # pairs of one-statement files written from one skeleton (the only statement of each at the same byte offset), one with a
+        # genuine directive above the statement, one with the directive word spoilt; in both directory orders
+        mr = core.rng_for("c14mini", fileseed)
+        for j, d in enumerate(["ignore", "no-kvp"]):
+            gm = gen.GenFile(eol)
+            gm.raw("// module %d%s" % (j, eol) + "fn run() {" + eol)
+            gm.raw("    " + comment("breadlog:" + d, rows[0], mr) + eol)
+            f = dict(gen.NEUTRAL)
+            f["nkv"] = mr.choice([0, 1])
+            _, st, post = gen.build_stmt(f, "Mini%s_%d" % (fileseed, j), mr, eol=eol)
+            gm.raw("    ")
+            it = gm.add_stmt("", st, post)
+            gm.newline()
+            gm.raw("}" + eol)
+            first, second = ("src/k%d_a.rs" % j, "src/k%d_b.rs" % j) if mr.random() < 0.5 else ("src/k%d_b.rs" % j, "src/k%d_a.rs" % j)
+            files[first] = gm.data()
+            files[second] = twin_of(gm.data())
+            minis.append((first, it, d))
+            minis.append((second, it, "none"))
     with core.Box(tag="c14") as box:
         cfg = core.make_config(structured=True if structured else None, use_cache=False)
-        out = lab.run_tree(built, box, {"src/f.rs": gf.data()}, cfg, trace=False)
+        out = lab.run_tree(built, box, files, cfg, trace=False)
     fo = out.files["src/f.rs"]
     res = {"evaluations": 2, "nontrivial": [], "violations": [], "samples": [], "inconclusive": {}, "counters": {}}
+    for rel, it, eff in minis:
+        fm = out.files[rel]
+        if fm.tokens is None or out.check.panicked() or out.edit.panicked():
+            continue
+        res["counters"]["one_statement_twin_files"] = res["counters"].get("one_statement_twin_files", 0) + 1
+        clause = judge_one(it, eff, structured, fm)
+        if clause:
+            res["violations"].append({"signature": "C14.%s|one-statement-file-next-to-its-twin|expected=%s|%s" % (clause, eff, "structured" if structured else "unstructured"),
+                                      "detail": {"file": rel, "content": files[rel], "other_files": sorted(files)},
+                                      "case": {"rows": rows, "structured": structured, "eol": eol, "fileseed": fileseed}})
+            break
+    if twin:
+        res["counters"]["twin_files"] = 1
+        ft = out.files[twin]
+        if ft.tokens is not None and not (out.check.panicked() or out.edit.panicked()):
+            for it, eff, row, role in meta:
+                clause = judge_one(it, "none", structured, ft)
+                if clause:
+                    res["violations"].append({"signature": "C14.%s|%s|in-a-twin-file-without-directives|%s" % (clause, role, "structured" if structured else "unstructured"),
+                                              "detail": {"statement": it.stmt.text, "twin": twin, "row": row,
+                                                         "context": files[twin][max(0, it.start - 160):it.end + 20]},
+                                              "case": {"rows": rows, "structured": structured, "eol": eol, "fileseed": fileseed}})
+                    break
     if out.check.panicked() or out.edit.panicked():
         # a crash caused by this workload's own content is C17's finding; here the placements are inconclusive
         res["inconclusive"]["run-crashed (C17's business)"] = 1
@@ -253,7 +321,7 @@ def main(tier):
 def replay_witness(w, ck=None, built=None):
     built = built or (ck.built if ck else None) or core.build_repo()
     c = w["case"] if "case" in w else w["first"]["case"]
-    r = work((built, "replay", c["rows"], c["structured"], c["eol"]))
+    r = work((built, c.get("fileseed", "replay"), c["rows"], c["structured"], c["eol"]))
     return bool(r["violations"])
 
 
